@@ -429,3 +429,57 @@ def _apply_cond(test: ast.AST, truth: bool, w: World) -> Optional[World]:
     if ("cond", text, not val) in w:
         return None
     return w | {("cond", text, val)}
+
+
+# --------------------------------------------------------------------------
+# classical reaching definitions for one local name
+# --------------------------------------------------------------------------
+
+
+def _defines(node: Node, name: str) -> bool:
+    tgt = None
+    if node.kind == "stmt":
+        st = node.ast
+        if isinstance(st, (ast.FunctionDef, ast.AsyncFunctionDef, ast.ClassDef)):
+            return st.name == name
+        tgt = st
+    elif node.kind == "for":
+        tgt = node.ast.target
+    elif node.kind == "with":
+        tgt = ast.Tuple([i.optional_vars for i in node.ast.items if i.optional_vars is not None], ast.Load())
+    elif node.kind == "handler":
+        return node.ast.name == name
+    if tgt is None:
+        return False
+    for n in _walk_expr(tgt):
+        if isinstance(n, ast.Name) and n.id == name and isinstance(n.ctx, (ast.Store, ast.Del)):
+            return True
+    return False
+
+
+def reaching_defs(cfg: CFG, name: str) -> Dict[int, Set[int]]:
+    """node id -> ids of the CFG nodes whose definition of `name` may reach the
+    node's entry.  The pseudo-definition -1 stands for "parameter / not yet bound"."""
+    IN: Dict[int, Set[int]] = {n.id: set() for n in cfg.nodes}
+    IN[cfg.entry.id] = {-1}
+    work = [cfg.entry.id]
+    while work:
+        nid = work.pop()
+        node = cfg.nodes[nid]
+        out = {nid} if _defines(node, name) else set(IN[nid])
+        for dst, label in cfg.succ[nid]:
+            src = IN[nid] if label == "exc" else out
+            if not src <= IN[dst]:
+                IN[dst] |= src
+                work.append(dst)
+    return IN
+
+
+def def_value(node: Node, name: str) -> Optional[ast.AST]:
+    """The expression assigned to `name` by a plain `name = expr` node, else None."""
+    st = node.ast
+    if node.kind == "stmt" and isinstance(st, ast.Assign) and len(st.targets) == 1 and isinstance(st.targets[0], ast.Name) and st.targets[0].id == name:
+        return st.value
+    if node.kind == "stmt" and isinstance(st, ast.AnnAssign) and isinstance(st.target, ast.Name) and st.target.id == name:
+        return st.value
+    return None
